@@ -4,8 +4,63 @@ Correspondence: slice c10 (convert_integer via TypeSpace::add_type  vs  Integer.
 import json, itertools
 import vlib
 
-PROOF_TARGETS = ["TypifyModel.Proofs.C10"]
-PROOF_FILES = ["Proofs/C10.lean", "Proofs/Lemmas/IntegerLemmas.lean", "Proofs/Lemmas/F64.lean"]
+PROOF_TARGETS = ["TypifyModel.Proofs.C10", "TypifyModel.Proofs.C10Strings"]
+PROOF_FILES = ["Proofs/C10.lean", "Proofs/C10Strings.lean", "Proofs/Lemmas/IntegerLemmas.lean", "Proofs/Lemmas/F64.lean"]
+# independent statement of the string-format clause: the documented formats and their types; anything else is a String
+DOCUMENTED = {"uuid": "::uuid::Uuid", "date": "::chrono::naive::NaiveDate", "date-time": "::chrono::DateTime<::chrono::offset::Utc>",
+              "ip": "::std::net::IpAddr", "ipv4": "::std::net::Ipv4Addr", "ipv6": "::std::net::Ipv6Addr"}
+UNKNOWN_FORMATS = ["hostname", "idn-hostname", "uri", "uri-reference", "iri", "email", "idn-email", "time", "duration", "regex", "json-pointer",
+                   "relative-json-pointer", "uri-template", "binary", "byte", "password", "partial-date-time", "date_time", "datetime", "DATE",
+                   "Uuid", "UUID", " uuid", "uuid ", "ipv4 ", "IPv6", "ip-address", "cidr", "int32", "uint64", "double", "float", "", "x", "é"]
+
+def string_formats(ctx, st):
+    """T2 vs behaviour: every format of the regenerated table and a pool of formats no arm names go through the real
+    add path (TypeSpace::add_root_schema via tvh_ir); the type selected must be the one the table model
+    (Natives.selectStringFormat) gives; independently (no model): documented formats give the documented type and
+    everything else a plain String, with and without string validation keywords next to the format"""
+    from batch import Batch
+    import irutil
+    rows, fallback = vlib.string_formats_table()
+    tbl = {f: (p, set(i)) for f, p, i in rows}
+    pool = [f for f, _, _ in rows if not f.startswith("?")] + [f for f in UNKNOWN_FORMATS if f not in tbl] + [f for f in DOCUMENTED if f not in tbl]
+    defs = {}; which = {}
+    for i, f in enumerate(pool):
+        defs["Sf%d" % i] = {"type": "string", "format": f}; which["Sf%d" % i] = (f, "bare")
+        defs["Sv%d" % i] = {"type": "string", "format": f, "maxLength": 64}; which["Sv%d" % i] = (f, "maxLength")
+        defs["Sn%d" % i] = {"type": ["string", "null"], "format": f}; which["Sn%d" % i] = (f, "nullable")
+    doc = {"title": "R", "type": "object", "definitions": defs}
+    b = Batch("C10_strfmt", assertions=False, verbose=False)
+    c = b.add_case([{"root": doc}], {}, tag="string-formats"); b.prepare()
+    dis = []; fails = []; n = 0; sel = {}
+    if not c.dump:
+        return {"evaluations": 0, "disagreements": [{"error": c.error or c.messages}], "fails": [], "selected": {}}
+    es = irutil.entries(c.dump); nm = irutil.named(c.dump)
+    def selected(name):
+        if name not in nm: return None
+        e = nm[name][1]
+        while e and e["kind"] in ("newtype", "option"):
+            if e["kind"] == "newtype" and e["constraints"]: break
+            e = es.get(e["type_id"] if e["kind"] == "newtype" else e["id"])
+        if e is None: return None
+        if e["kind"] == "native": return (e["type_name"], set(e["impls"]) - {"Default"})
+        if e["kind"] == "string": return ("String", set())
+        if e["kind"] == "newtype": return ("String(constrained)", set())
+        return (e["kind"], set())
+    for name, (f, form) in sorted(which.items()):
+        got = selected(name); n += 1
+        if got is None: dis.append({"format": f, "form": form, "problem": "no type named " + name}); continue
+        sel[f] = got[0]
+        mp, mi = tbl.get(f, (fallback, set()))
+        # the model describes the arm taken when a format is present; string validation next to an unrecognised format
+        # is dropped by convert_string (the None arm is the only one that looks at it), so the answer is the same
+        if (got[0], got[1]) != (mp, set(mi) - {"Default"}):
+            dis.append({"format": f, "form": form, "impl": [got[0], sorted(got[1])], "table_model": [mp, sorted(mi)]})
+        # a format some arm names but the documentation does not is judged by the table theorems only
+        # (C10S.string_formats_known), not by this oracle: a newly recognised format is not by itself a violation
+        want = DOCUMENTED.get(f, "String" if f not in tbl else got[0])
+        if got[0] != want:
+            fails.append({"format": f, "form": form, "schema": defs[name], "selected": got[0], "documented": want})
+    return {"evaluations": n, "disagreements": dis, "fails": fails, "selected": sel}
 FINDINGS_TARGET = "TypifyModel.Proofs.C10Findings"
 
 TYPES = {
@@ -172,6 +227,13 @@ def run(ctx):
     broken = list(st["broken"])
     if disagreements:
         broken.append("correspondence c10: model and implementation disagree on %d inputs" % len(disagreements))
+    sf = string_formats(ctx, st)
+    ctx.log("string formats: %d evaluations, %d disagreements with the T2 table model, %d oracle failures" % (sf["evaluations"], len(sf["disagreements"]), len(sf["fails"])))
+    if sf["disagreements"]:
+        broken.append("correspondence T2 (string formats): the table regenerated from convert_string and the real add path disagree on %d schemas" % len(sf["disagreements"]))
+    for fl in sf["fails"][:3]:
+        vlib.violation(ctx, {"property": "C10", "kind": "implementation violates the property", "failed_clause": "string format -> documented type / String",
+                             "input": fl["schema"], "detail": fl, "broken_obligations": broken})
     # report
     seen_kinds = set()
     for c, a, kind, det in new_fail:
@@ -183,7 +245,7 @@ def run(ctx):
                              "input": c, "impl_answer": a, "failed_clause": kind, "witness_value": det,
                              "broken_obligations": broken, "first_disagreements": disagreements[:3],
                              "replay": "./check C10 --replay <this file>"})
-    if broken and not new_fail:
+    if broken and not new_fail and not sf["fails"]:
         vlib.violation(ctx, {"property": "C10", "kind": "property no longer shown to hold",
                              "broken_obligations": broken, "first_disagreements": disagreements[:5],
                              "lean_log": st.get("log", "")}, no_input=True)
@@ -204,6 +266,9 @@ def run(ctx):
         "out_of_model_domain": unsupported,
         "answer_distribution": dict(sorted(branches.items(), key=lambda kv: -kv[1])[:20]),
         "tables_regenerated": st["tables_ok"],
+        "string_formats": {"evaluations": sf["evaluations"], "selected": sf["selected"], "table_model_disagreements": sf["disagreements"][:5],
+                           "oracle_failures": len(sf["fails"]),
+                           "theorems": ["C10S.string_formats_documented", "C10S.string_format_unrecognised", "C10S.string_formats_known", "C10S.string_formats_functional", "C10S.string_formats_uses"]},
     }
     vlib.write_evidence(ctx, "proof", cov, [
         "JSON integers within [i64::MIN-1, u64::MAX+1] are parsed by serde_json to the nearest f64 (modelled by roundF64)",
